@@ -844,5 +844,173 @@ theorem lexAct_tok (hs2 : SinkSafe2 env.ops inp) {hb f : Bool} {a a' : AbsL} (ac
     simp only [lexAct]
     exact lexQuiet_tok _ l x none rfl ht hinv (fun e h => by cases h)
 
+
+/-! ### tag scanner -/
+
+def ScanTokPost (a' : AbsS) (pos : Nat) (r : M κ × Option Signal) : Prop :=
+  ∃ s', r.1.r = .scanner s' ∧ TokS a' pos s' ∧ Inv r.1.x.sim ∧ ∀ e, r.2 = some (.err e) → ErrNot T2 e
+
+theorem scanEmitHint_tok (hs2 : SinkSafe2 env.ops inp) (c : Common) (s : ScanRegs) (x : Ctx κ) (p : Nat) (ie : Bool)
+    (hts : s.tagStart = none) (hr : RangeIn inp.length ⟨s.tagNameStart, c.pos⟩) (hinv : Inv x.sim) :
+    ScanTokPost .none c.pos (scanEmitHint env inp c s x p ie) := by
+  unfold scanEmitHint
+  obtain ⟨name, hname⟩ := LocalName.new_isSome (inp := inp) s.tagNameHash hr
+  rw [hname]
+  dsimp only
+  have herr : ∀ e, (if ie = true then env.ops.endTagHint name x.sink
+      else env.ops.startTagHint name x.sim.currentNs x.sink).2 = .error e → ErrNot T2 e := by
+    intro e he
+    split at he
+    · exact hs2.endTagHint _ _ e he
+    · exact hs2.startTagHint _ _ _ e he
+  split
+  · rename_i e he
+    exact ⟨_, rfl, hts, hinv, fun e' h => by
+      simp only [Option.some.injEq, Signal.err.injEq] at h; subst h; exact herr e he⟩
+  · exact ⟨_, rfl, hts, hinv, fun e h => by cases h⟩
+  · exact ⟨_, rfl, hts, hinv, fun e h => by cases h⟩
+
+theorem scanFinishTagName_tok (hs2 : SinkSafe2 env.ops inp) {hb f : Bool} (c : Common) (s : ScanRegs) (x : Ctx κ)
+    (hm : MInvA W inp.length lo hb f ⟨c, .scanner s, x⟩) (ht : TokS (.some true) c.pos s) (hinv : Inv x.sim) :
+    ScanTokPost .none c.pos (scanFinishTagName env inp c s x) := by
+  obtain ⟨a1, a2, a3, a4, a5⟩ := hm
+  obtain ⟨p, hp, hlive⟩ := ht
+  have hl := hlive rfl
+  have hposL : c.pos ≤ inp.length := a3
+  unfold scanFinishTagName
+  rw [hp]
+  dsimp only
+  have hfb : ∀ (r : Except Err (Sim × Feedback)),
+      r = (if s.isInEndTag = true then x.sim.feedbackForEndTag env.cfg s.tagNameHash
+           else x.sim.feedbackForStartTag env.cfg s.tagNameHash) →
+      (∀ e, r = .error e → ErrNot T2 e) ∧ (∀ v, r = .ok v → Inv v.1) := by
+    intro r hr
+    subst hr
+    split
+    · exact Sim.feedbackForEndTag_inv hinv _
+    · exact Sim.feedbackForStartTag_inv hinv _
+  obtain ⟨g1, g2⟩ := hfb _ rfl
+  split
+  · rename_i e herr
+    exact ⟨_, rfl, rfl, hinv, fun e' h => by
+      simp only [Option.some.injEq, Signal.err.injEq] at h; subst h; exact g1 _ herr⟩
+  · rename_i sf hsf
+    have hi1 := g2 _ hsf
+    obtain ⟨f1, f2, f3, f4, f5⟩ := scanApplyFeedback_frame c { s with tagStart := none } sf.2
+    have htn : (scanApplyFeedback c { s with tagStart := none } sf.2).2.1.tagNameStart = s.tagNameStart := by
+      cases sf.2 <;> rfl
+    split
+    · exact ⟨_, rfl, by dsimp only [TokS]; rw [f4], hi1, fun e h => by cases h⟩
+    · apply scanEmitHint_tok hs2
+      · dsimp only; rw [f4]
+      · dsimp only
+        rw [htn]
+        have hp' : (scanApplyFeedback c { s with tagStart := none } sf.2).1.pos = c.pos := by
+          simp only [Common.pos, f1]
+        rw [hp']
+        exact ⟨hl.2, hposL⟩
+      · exact hi1
+
+/-- **Tag-scanner actions: the abstract transformer is sound.** -/
+theorem scanAct_tok (hs2 : SinkSafe2 env.ops inp) {hb f : Bool} {a a' : AbsS} (act : ActName) (c : Common)
+    (s : ScanRegs) (x : Ctx κ) (hm : MInvA W inp.length lo hb f ⟨c, .scanner s, x⟩) (ht : TokS a c.pos s)
+    (hinv : Inv x.sim) (hl : absTokS act a = some a') : ScanTokPost a' c.pos (scanAct env act inp c s x) := by
+  have hm' := hm
+  obtain ⟨a1, a2, a3, a4, a5⟩ := hm'
+  simp only [RegsA] at a5
+  have hpos : c.pos = c.nextPos - 1 := rfl
+  cases act
+  case finishTagName =>
+    simp only [absTokS] at hl
+    simp only [scanAct]
+    cases a with
+    | some live =>
+      cases live
+      · cases hl
+      · simp only [Option.some.injEq] at hl
+        subst hl
+        exact scanFinishTagName_tok hs2 c s x hm ht hinv
+    | none => cases hl
+    | top => cases hl
+  case createStartTag =>
+    simp only [absTokS, Option.some.injEq] at hl
+    subst hl
+    simp only [scanAct]
+    refine ⟨_, rfl, ?_, hinv, fun e h => by cases h⟩
+    cases a with
+    | none => exact ht
+    | top => trivial
+    | some live =>
+      obtain ⟨p, hp, _⟩ := ht
+      exact ⟨p, hp, fun _ => ⟨by rw [hpos]; exact (a5.2.1 p hp).2.2, Nat.le_refl _⟩⟩
+  case createEndTag =>
+    simp only [absTokS, Option.some.injEq] at hl
+    subst hl
+    simp only [scanAct]
+    refine ⟨_, rfl, ?_, hinv, fun e h => by cases h⟩
+    cases a with
+    | none => exact ht
+    | top => trivial
+    | some live =>
+      obtain ⟨p, hp, _⟩ := ht
+      exact ⟨p, hp, fun _ => ⟨by rw [hpos]; exact (a5.2.1 p hp).2.2, Nat.le_refl _⟩⟩
+  case markTagStart =>
+    simp only [absTokS, Option.some.injEq] at hl
+    subst hl
+    simp only [scanAct]
+    exact ⟨_, rfl, ⟨_, rfl, fun h => by cases h⟩, hinv, fun e h => by cases h⟩
+  case unmarkTagStart =>
+    simp only [absTokS, Option.some.injEq] at hl
+    subst hl
+    simp only [scanAct]
+    exact ⟨_, rfl, rfl, hinv, fun e h => by cases h⟩
+  case updateTagNameHash =>
+    simp only [absTokS, Option.some.injEq] at hl
+    subst hl
+    simp only [scanAct]
+    split
+    · refine ⟨_, rfl, ?_, hinv, fun e h => by cases h⟩
+      cases a <;> exact ht
+    · exact ⟨_, rfl, ht, hinv, fun e h => by cases h⟩
+  case emitTag =>
+    simp only [absTokS, Option.some.injEq] at hl
+    subst hl
+    simp only [scanAct]
+    refine ⟨_, rfl, ?_, hinv, fun e h => by cases h⟩
+    cases a <;> exact ht
+  all_goals
+    simp only [absTokS, Option.some.injEq] at hl
+    subst hl
+    simp only [scanAct]
+    exact ⟨_, rfl, ht, hinv, fun e h => by cases h⟩
+
+/-- **Every action: the abstract transformer is sound.** -/
+theorem act_tok (hs2 : SinkSafe2 env.ops inp) {hb f f' : Bool} {a a' : Abs} (act : ActName) (m : M κ)
+    (hm : MInvA W inp.length lo hb f m) (ht : TokM a (m.c.nextPos - 1) m)
+    (hstep : absStep hb act (f, a) = some (f', a')) :
+    TokPost a' (m.c.nextPos - 1) (Model.act env act inp m) := by
+  unfold absStep at hstep
+  dsimp only at hstep
+  split at hstep
+  · rename_i f1 l1 s1 hf hl hsc
+    simp only [Option.some.injEq, Prod.mk.injEq] at hstep
+    obtain ⟨_, rfl⟩ := hstep
+    obtain ⟨htr, hinv⟩ := ht
+    unfold Model.act
+    cases m with
+    | mk c r x =>
+      cases r with
+      | lexer l =>
+        obtain ⟨l', e1, e2, e3, e4⟩ := lexAct_tok hs2 act c l x hm ⟨_, hf⟩ htr hinv hl
+        refine ⟨⟨?_, e3⟩, e4⟩
+        rw [e1]
+        exact e2
+      | scanner s =>
+        obtain ⟨s', e1, e2, e3, e4⟩ := scanAct_tok hs2 act c s x hm htr hinv hsc
+        refine ⟨⟨?_, e3⟩, e4⟩
+        rw [e1]
+        exact e2
+  · cases hstep
+
 end
 end LolHtml.Model
